@@ -70,22 +70,23 @@ func (l *KUAndEKUInconsistent) multiPurpose(c *x509.Certificate) *lint.LintResul
 	// included extKeyUsage(es).
 	var mp = map[x509.KeyUsage]bool{}
 	for _, extKeyUsage := range c.ExtKeyUsage {
-		var i int
 		if _, ok := eku[extKeyUsage]; !ok {
 			return &lint.LintResult{Status: lint.Pass}
 		}
+		// The combinations authorized by the EKUs seen so far. They are collected
+		// before this EKU's own combinations are added so that the outcome does not
+		// depend on map iteration order. There is nothing to merge for the first EKU.
+		seen := make([]x509.KeyUsage, 0, len(mp))
+		for mpku := range mp {
+			seen = append(seen, mpku)
+		}
 		for ku := range eku[extKeyUsage] {
-			// There is nothing to merge for the first EKU.
-			if i > 0 {
-				// We could see this EKU combined with any other EKU so
-				// create that possibility.
-				for mpku := range mp {
-					mp[mpku|ku] = true
-				}
+			// We could see this EKU combined with any other EKU so
+			// create that possibility.
+			for _, mpku := range seen {
+				mp[mpku|ku] = true
 			}
-
 			mp[ku] = true
-			i++
 		}
 	}
 	if !mp[c.KeyUsage] {
